@@ -197,3 +197,63 @@ func verifC09Num(x, y, z float64, xo, yo, zo bool) {}
 //@   ensures ((rx - ry) < 0) <==> ((ry - rx) > 0)
 //@   ensures (rx - ry) <= 0 && (ry - rz) <= 0 ==> (rx - rz) <= 0
 func verifC09Rank(rx, ry, rz int) {}
+
+// ---------------------------------------------------------------------------
+// Measurement masks and matches (C06)
+
+// bit(m, i): bit i of the mask (measurement i matched).
+//@ pure func bit(m mask, i int) bool = (m[i/32] & (bv32(1) << bv32(i%32))) != bv32(0)
+
+//@ func newMask(n int) (m mask)
+//@   props C06
+//@   requires 0 <= n
+//@   ensures len(m) == (n+31)/32 && (len(m) == 0 || fresh(m)) && forall w int :: 0 <= w < len(m) ==> m[w] == bv32(0)
+
+//@ func (m mask) set(i int)
+//@   props C06
+//@   requires 0 <= i && i/32 < len(m)
+//@   modifies m
+//@   ensures m[i/32] == (old(m[i/32]) | (bv32(1) << bv32(i%32)))
+//@   ensures forall w int :: 0 <= w < len(m) && w != i/32 ==> m[w] == old(m[w])
+
+//@ func (m mask) and(n mask)
+//@   props C06
+//@   requires len(n) >= len(m)
+//@   modifies m
+//@   ensures forall w int :: 0 <= w < len(m) ==> m[w] == (old(m[w]) & old(n[w]))
+//@   loop 1:
+//@     invariant 0 <= idx() <= len(m) && unchanged(m)
+//@     invariant forall w int :: 0 <= w < idx() ==> m[w] == (old(m[w]) & old(n[w]))
+//@     invariant forall w int :: idx() <= w < len(m) ==> m[w] == old(m[w])
+//@     invariant ref(n) != ref(m) ==> forall w int :: 0 <= w < len(n) ==> n[w] == old(n[w])
+//@     decreases len(m) - idx()
+
+//@ func (m mask) or(n mask)
+//@   props C06
+//@   requires len(n) >= len(m)
+//@   modifies m
+//@   ensures forall w int :: 0 <= w < len(m) ==> m[w] == (old(m[w]) | old(n[w]))
+//@   loop 1:
+//@     invariant 0 <= idx() <= len(m) && unchanged(m)
+//@     invariant forall w int :: 0 <= w < idx() ==> m[w] == (old(m[w]) | old(n[w]))
+//@     invariant forall w int :: idx() <= w < len(m) ==> m[w] == old(m[w])
+//@     invariant ref(n) != ref(m) ==> forall w int :: 0 <= w < len(n) ==> n[w] == old(n[w])
+//@     decreases len(m) - idx()
+
+//@ func (m mask) not()
+//@   props C06
+//@   modifies m
+//@   ensures forall w int :: 0 <= w < len(m) ==> m[w] == ^old(m[w])
+//@   loop 1:
+//@     invariant 0 <= idx() <= len(m) && unchanged(m)
+//@     invariant forall w int :: 0 <= w < idx() ==> m[w] == ^old(m[w])
+//@     invariant forall w int :: idx() <= w < len(m) ==> m[w] == old(m[w])
+//@     decreases len(m) - idx()
+
+// A Match is well formed when its mask, if any, has one word per 32 measurements.
+//@ pure func matchOK(m Match) bool = 0 <= m.n && (m.m == nil || len(m.m) == (m.n+31)/32)
+
+//@ func (m *Match) Test(i int) (r bool)
+//@   props C06
+//@   requires m != nil && matchOK(deref(m))
+//@   ensures r <==> (0 <= i < m.n && (m.m == nil ? m.x : bit(m.m, i)))
